@@ -8,6 +8,7 @@ VM-syntax legality: illegal parameter tuples must produce an error.
 import itertools
 
 from lib import diceoracle as O
+import re as _re_top
 from lib.common import Run, hx, unhx
 
 
@@ -178,6 +179,41 @@ def main(tier):
             if why:
                 run.violation("dc:" + why, {"case": ln, "implementation": g, "decoded_text": unhx(f[3]).decode(), "clause": why})
         run.sample({"stream": "dc", "case": lines[-1]})
+        # ---- pool terms through the VM syntax: `PaA` followed by any sequence of k / q / m suffixes (repeated, in any order — the last of
+        #      each kind wins, and k / q share the threshold) rolls exactly what the exported function rolls with those parameters
+        wl, wm = [], []
+        for _ in range(400 if tier == "thorough" else 100):
+            pool, add = r.randint(1, 12), r.randint(5, 11)
+            pts, th, ge = 10, 8, 1
+            src = f"{pool}{r.choice('aA')}{add}"
+            for _k in range(r.randint(0, 4)):
+                kind = r.choice("kqm")
+                v = r.randint(2, 10)
+                src += r.choice([kind, kind.upper()]) + str(v)
+                if kind == "m":
+                    pts = v
+                else:
+                    th, ge = v, (1 if kind == "k" else 0)
+            if add <= 1 or pts < 1:
+                continue
+            st = f"{r.getrandbits(128):032x}"
+            wl += [f"runseq w,L30000 {st} {hx(src)}", f"wod {st} {add} {pool} {pts} {th} {ge} 0"]
+            wm.append((src, add, pool, pts, th, ge))
+        wo = run.go_only("vm-pool-terms", wl, go_timeout=60)
+        for i, (src, add, pool, pts, th, ge) in enumerate(wm):
+            a, b = wo[2 * i][1], wo[2 * i + 1][1]
+            ma = _re_top.match(r"ok i(-?\d+) d=(\S+) ", a)
+            fb = b.split()
+            if not ma or len(fb) < 4:
+                run.count("vm-pool-terms.not-ok")
+                continue
+            run.nontriv(("vm-pool", src))
+            dt = unhx(ma.group(2)).decode("utf-8", "replace")
+            want_txt = unhx(fb[3]).decode("utf-8", "replace")
+            if ma.group(1) != fb[0] or want_txt not in dt:
+                run.violation("vm-pool-term:differs-from-the-rule-with-its-parameters", {"source": src, "parameters": {"add_line": add, "pool": pool, "points": pts, "threshold": th,
+                                                                                          "success_when": ">=" if ge else "<="},
+                                                                                          "through_the_vm": a[:300], "exported_function": b[:200]})
         # ---- dice terms through the VM syntax: every annotated term of a sum must obey its own rule
         import re as _re
         progs = []
